@@ -5,5 +5,5 @@ export GOFLAGS=-mod=mod GOPROXY=off GOSUMDB=off GOTOOLCHAIN=local
 wt=/tmp/seedrun_$$; git -C /repo worktree add -q --detach $wt HEAD || exit 3
 git -C $wt apply /verif/seeded/$id/patch.diff || { echo "patch does not apply"; git -C /repo worktree remove --force $wt; exit 3; }
 hf=""; [ -n "$h" ] && hf="--harness $h"
-SYMGO_REPO=$wt SYMGO_REPLAYS=/tmp/seedrun_replays_$$ SYMGO_EVIDENCE=/tmp/seedrun_ev_$$ timeout ${TMO:-900} /verif/bin/symgo check --prop $prop $hf --jobs ${JOBS:-6} 2>&1 | grep "^harness\|NOT-DEC\|VIOL\|finger\|UNCONF\|MACH\|KNOWN" | cut -c1-220
+SYMGO_REPO=$wt SYMGO_REPLAYS=/tmp/seedrun_replays_$$ SYMGO_EVIDENCE=/tmp/seedrun_ev_$$ timeout ${TMO:-900} ${SYMGO_BIN:-/verif/bin/symgo} check --prop $prop $hf --jobs ${JOBS:-6} 2>&1 | grep "^harness\|NOT-DEC\|VIOL\|finger\|UNCONF\|MACH\|KNOWN" | cut -c1-220
 git -C /repo worktree remove --force $wt; rm -rf /tmp/seedrun_replays_$$ /tmp/seedrun_ev_$$
